@@ -142,6 +142,7 @@ func c09Spec(anon bool) string {
 "paths":{"/items/{id}":{"post":{"security":` + sec + `,"parameters":[{"name":"id","in":"path","type":"string","required":true},
 {"name":"body","in":"body","required":true,"schema":{"type":"object"}}],"responses":{"200":{"description":"ok"}}}},
 "/open":{"get":{"responses":{"200":{"description":"ok"}}}},
+"/range/{id}":{"post":{"consumes":["text/*"],"parameters":[{"name":"id","in":"path","type":"string","required":true},{"name":"body","in":"body","schema":{"type":"object"}}],"responses":{"200":{"description":"ok"}}}},
 "/find/{id}":{"get":{"parameters":[{"name":"id","in":"path","type":"string","required":true},{"name":"q","in":"query","type":"string"},{"name":"n","in":"query","type":"integer","format":"int64"}],"responses":{"200":{"description":"ok"}}}}}}`
 }
 
@@ -168,6 +169,19 @@ func c09Build(anon bool, authz bool) *c09API {
 		c09Count(&c09Cnt.binds)
 		return runtime.JSONConsumer().Consume(r, data)
 	}))
+	// two concrete types inside the media range the /range operation declares (it has no consumer for the range itself)
+	for _, mt := range []string{"text/plain", "text/csv"} {
+		mt := mt
+		api.RegisterConsumer(mt, runtime.ConsumerFunc(func(r io.Reader, data interface{}) error {
+			_, _ = io.Copy(io.Discard, r)
+			if p, ok := data.(*interface{}); ok {
+				*p = map[string]interface{}{"by": mt}
+			} else if p, ok := data.(*map[string]interface{}); ok {
+				*p = map[string]interface{}{"by": mt}
+			}
+			return nil
+		}))
+	}
 	keyAuth := security.APIKeyAuth("X-Key", "header", func(tok string) (interface{}, error) {
 		if strings.HasPrefix(tok, "good") {
 			return "user:" + tok, nil
@@ -204,6 +218,11 @@ func c09Build(anon bool, authz bool) *c09API {
 		}))
 	}
 	api.RegisterOperation("post", "/items/{id}", runtime.OperationHandlerFunc(func(params interface{}) (interface{}, error) {
+		m := params.(map[string]interface{})
+		c09Retain(m)
+		return map[string]interface{}{"id": m["id"], "body": m["body"]}, nil
+	}))
+	api.RegisterOperation("post", "/range/{id}", runtime.OperationHandlerFunc(func(params interface{}) (interface{}, error) {
 		m := params.(map[string]interface{})
 		c09Retain(m)
 		return map[string]interface{}{"id": m["id"], "body": m["body"]}, nil
@@ -300,6 +319,11 @@ func c09Request(in c09In, rid string) *http.Request {
 		if in.BadN {
 			path += "&n=bad-" + rid
 		}
+	case "range":
+		method, path = "POST", "/range/"+rid
+		if in.Esc {
+			path += "%2Fz%20%C3%A9"
+		}
 	case "missing":
 		method, path = "GET", "/nothing/here"
 	}
@@ -318,6 +342,8 @@ func c09Request(in c09In, rid string) *http.Request {
 		req.Header.Set("Content-Type", "Application/JSON; charset=utf-8")
 	case "text":
 		req.Header.Set("Content-Type", "text/plain")
+	case "csv":
+		req.Header.Set("Content-Type", "text/csv")
 	case "malformed":
 		req.Header.Set("Content-Type", "application/json; charset")
 	}
@@ -366,6 +392,8 @@ func c09MT(s string) int {
 		return 3
 	case "image/png":
 		return 4
+	case "text/csv":
+		return 6
 	case "text/plain; charset=utf-8": // an offer that carries a parameter: what is negotiated is the offer as spelled
 		return 5
 	case "":
@@ -392,6 +420,8 @@ func c09Static(in c09In, a *c09API) string {
 		route = 2
 	case "find":
 		route = 3
+	case "range":
+		route = 4
 	}
 	hasBody := runtime.HasBody(c09Request(in, "r1"))
 	mt, _, cterr := runtime.ContentType(probe.Header)
@@ -408,15 +438,23 @@ func c09Static(in c09In, a *c09API) string {
 	if in.Authz != "none" {
 		authorizer = fmt.Sprintf("(Some %s)", coqBool(in.Authz != "deny"))
 	}
-	bindOK := in.Target != "items" || !hasBody || in.Body == "valid" // a missing required body is not refused by the binder
+	bindOK := (in.Target != "items" && in.Target != "range") || !hasBody || in.Body == "valid" // a missing required body is not refused by the binder
 	if in.Target == "find" && in.BadN {
 		bindOK = false
 	}
 	return fmt.Sprintf("(mkstatic %s %s %s %s %s %s (fun k => match k with 0 => %s | _ => %s end) 0 true %s %s %s)",
 		c09OptNat(route != 0, route), coqBool(in.Target == "items"), coqBool(hasBody),
-		c09OptNat(cterr == nil, c09MT(mt)), coqBool(cterr == nil && mt == "application/json"), coqBool(cterr == nil && mt == "application/json"),
+		c09OptNat(cterr == nil, c09MT(mt)), coqBool(cterr == nil && c09Admitted(in, mt)), coqBool(cterr == nil && mt == "application/json"),
 		c09OptNat(neg0 != "", c09MT(neg0)), c09OptNat(neg1 != "", c09MT(neg1)),
 		auth, authorizer, coqBool(bindOK))
+}
+
+// c09Admitted: the media type passes the operation's consumes list (application/json everywhere; text/* on /range).
+func c09Admitted(in c09In, mt string) bool {
+	if in.Target == "range" { // the API default is added to every route's consumes
+		return strings.HasPrefix(mt, "text/") || mt == "application/json"
+	}
+	return mt == "application/json"
 }
 
 func c09Codes(err error) string {
@@ -510,6 +548,12 @@ func c09Op(a *c09API, in c09In, rid string, req *http.Request, o int) (c09Step, 
 					c09Leak("RouteInfo: request %s matched with id %q", rid, got)
 				}
 			}
+			if strings.HasPrefix(mr.PathPattern, "/range") {
+				id = 4
+				if got := mr.Params.Get("id"); got != c09ID(in, rid) {
+					c09Leak("RouteInfo: request %s matched with id %q", rid, got)
+				}
+			}
 			if strings.HasPrefix(mr.PathPattern, "/items") {
 				id = 1
 				if got := mr.Params.Get("id"); got != c09ID(in, rid) {
@@ -586,6 +630,12 @@ func c09Op(a *c09API, in c09In, rid string, req *http.Request, o int) (c09Step, 
 			}
 			if id, present := m["id"]; present && id != c09ID(in, rid) {
 				c09Leak("BindAndValidate: request %s bound id %v", rid, id)
+			}
+		}
+		if m, ok := bound.(map[string]interface{}); ok && in.Target == "range" {
+			// whichever consumer decoded the body must be the one registered for THIS request's media type
+			if b, ok := m["body"].(map[string]interface{}); ok && b["by"] != nil && b["by"] != req.Header.Get("Content-Type") {
+				c09Leak("BindAndValidate: request %s (%s) was decoded by the consumer of %v", rid, req.Header.Get("Content-Type"), b["by"])
 			}
 		}
 		if m, ok := bound.(map[string]interface{}); ok && in.Target == "items" {
@@ -717,10 +767,10 @@ func c09RunConc(in c09In, a *c09API, obs *c09Obs) {
 	var jobs []job
 	for i := 0; i < in.N; i++ {
 		j := in
-		j.Target = []string{"items", "items", "open", "missing"}[r.Intn(4)]
+		j.Target = []string{"items", "items", "open", "missing", "range"}[r.Intn(5)]
 		j.Key = []string{"good", "good", "bad", "absent", "tok", "both"}[r.Intn(6)]
 		j.Body = []string{"valid", "valid", "invalid", "none"}[r.Intn(4)]
-		j.CT = []string{"json", "json", "jsoncs", "text", "absent"}[r.Intn(5)]
+		j.CT = []string{"json", "json", "jsoncs", "text", "csv", "absent"}[r.Intn(6)]
 		j.Accept = []string{"json", "absent", "png", "any", "star", "text"}[r.Intn(6)]
 		j.Esc = r.Intn(3) == 0
 		j.BadN = r.Intn(2) == 0
@@ -838,8 +888,8 @@ func (c09) Category(inAny any, obsAny any) (string, bool) {
 }
 
 var c09Vals = map[string][]string{
-	"target": {"items", "items", "items", "open", "missing", "find", "find"},
-	"ct":     {"json", "json", "jsoncs", "text", "malformed", "absent"},
+	"target": {"items", "items", "items", "open", "missing", "find", "find", "range"},
+	"ct":     {"json", "json", "jsoncs", "text", "csv", "malformed", "absent"},
 	"body":   {"valid", "valid", "invalid", "none"},
 	"accept": {"json", "absent", "png", "any", "star", "star", "text", "text"},
 	"key":    {"good", "good", "bad", "absent", "tok", "both"},
@@ -857,7 +907,7 @@ func (c09) Gen(r *rand.Rand, tier string, i int) any {
 		m := c09In{Kind: "multi", Anon: r.Intn(2) == 0, Authz: c09Pick(r, "authz"), Salt: r.Intn(500000)}
 		nreq := 2 + r.Intn(2)
 		for j := 0; j < nreq; j++ {
-			q := c09In{Kind: "seq", Target: []string{"items", "items", "items", "open", "find"}[r.Intn(5)], CT: c09Pick(r, "ct"), Body: c09Pick(r, "body"),
+			q := c09In{Kind: "seq", Target: []string{"items", "items", "items", "open", "find", "range", "range"}[r.Intn(7)], CT: c09Pick(r, "ct"), Body: c09Pick(r, "body"),
 				Accept: c09Pick(r, "accept"), Key: c09Pick(r, "key"), Esc: r.Intn(3) == 0}
 			if r.Intn(2) == 0 { // spellings of one Accept value that differ in letter case only
 				q.Accept = []string{"jsonS", "jsonSU"}[r.Intn(2)]
